@@ -67,9 +67,22 @@ class Report:
                     continue
                 if hang_confirm is not None and (kind == "timeout" or (kind == "exit" and c.fate.get("code") == 3)):
                     verdict = hang_confirm(c)
-                    if verdict is None:
+                    insitu = {}
+                    try:
+                        insitu = json.loads(c.note) if c.note else {}
+                    except Exception:
+                        insitu = {}
+                    if verdict is None and insitu.get("all_asleep") and insitu.get("cpu_ticks_in_1500ms") == 0 and (insitu.get("threads") or 0) >= 1:
+                        # not reproduced when re-run alone (a hang that depends on an interleaving), but the stuck execution
+                        # itself showed every thread asleep and no CPU progress at all when its watchdog fired
+                        d = c.desc or {}
+                        sig = {"kind": "hang", "frame": "(every thread asleep, no CPU progress; seen in the original execution only)", "cpu": "idle", "profile": c.profile}
+                        self.evaluations += 1
+                        self.add_violation(sig, f"{self.prop}: the case did not terminate: when its watchdog fired all {insitu.get('threads')} threads were asleep "
+                                           f"and none had used any CPU time for 1.5 s (the hang did not show again when the case was re-run alone)", {"in_situ": insitu}, d, c.profile)
+                    elif verdict is None:
                         self.inconclusive += 1
-                        self.inconclusive_notes.append(f"case {c.k}: watchdog fired, hang not confirmed")
+                        self.inconclusive_notes.append(f"case {c.k}: watchdog fired, hang not confirmed ({c.note})")
                     else:
                         self.evaluations += 1
                         self.add_violation(verdict["sig"], verdict["what"], verdict.get("detail"), c.desc, c.profile)
